@@ -352,6 +352,92 @@ fn socks5_replies(a: &mut Acc, r: &mut Rng, exhaustive_len: usize, n_random: u64
     }
 }
 
+/// Datagrams from the SOCKS5 UDP relay (RFC 1928 section 7 header) fed to a live association
+/// over loopback: every address type x every total length 0..=44 (so every truncation point of
+/// every header form), reserved/fragment variants, domain-length bytes, seeded random datagrams.
+fn socks5_relay_datagrams(a: &mut Acc, r: &mut Rng, n_random: u64) {
+    use futures::FutureExt;
+    use tokio::io::{AsyncReadExt, AsyncWriteExt};
+    use trusttunnel::verif::misc::S5Result;
+    let rt = env::rt_current();
+    let mut packets: Vec<Vec<u8>> = vec![];
+    for atyp in [0u8, 1, 3, 4, 5, 0xff] {
+        for fill in [1u8, 0, 5, 0xff] {
+            if atyp != 3 && fill != 1 { continue; }
+            for len in 0..=44usize {
+                let mut p = vec![0u8, 0, 0, atyp];
+                p.resize(46, fill);
+                p.truncate(len);
+                packets.push(p);
+            }
+        }
+        for (rsv0, rsv1, frag) in [(1u8, 0u8, 0u8), (0, 1, 0), (0, 0, 1), (0, 0, 0x80), (0xff, 0xff, 0xff)] {
+            for len in [4usize, 9, 10, 11, 20, 21, 22, 23] {
+                let mut p = vec![rsv0, rsv1, frag, atyp];
+                p.resize(46, 7);
+                p.truncate(len);
+                packets.push(p);
+            }
+        }
+    }
+    let systematic = packets.len();
+    for _ in 0..n_random {
+        let n = r.below(48) as usize;
+        let mut p = r.bytes(n);
+        if r.chance(3, 4) { for (i, b) in [0u8, 0, 0, *r.pick(&[1u8, 3, 4])].iter().enumerate() { if i < p.len() { p[i] = *b; } } }
+        packets.push(p);
+    }
+    rt.block_on(async {
+        let relay = tokio::net::UdpSocket::bind("127.0.0.1:0").await.unwrap();
+        let relay_addr = relay.local_addr().unwrap();
+        let (client_io, mut server_io) = tokio::io::duplex(4096);
+        let srv = tokio::spawn(async move {
+            let mut b = [0u8; 3];
+            let _ = server_io.read_exact(&mut b).await;
+            let mut rest = vec![0u8; (b[1] as usize).saturating_sub(1)];
+            let _ = server_io.read_exact(&mut rest).await;
+            let _ = server_io.write_all(&[5, 0]).await;
+            let mut req = [0u8; 10];
+            let _ = server_io.read_exact(&mut req).await;
+            let mut reply = vec![5, 0, 0, 1];
+            if let std::net::SocketAddr::V4(a) = relay_addr { reply.extend_from_slice(&a.ip().octets()); }
+            reply.extend_from_slice(&relay_addr.port().to_be_bytes());
+            let _ = server_io.write_all(&reply).await;
+            // the association lives as long as its control connection
+            tokio::time::sleep(Duration::from_secs(3600)).await;
+            drop(server_io);
+        });
+        let assoc = match socks5_connect(client_io, None, S5Request::UdpAssociate).await {
+            Ok(S5Result::UdpAssociation(x)) => x,
+            _ => { a.local.tally("socks5 relay datagrams: association not established (nothing judged)", 1); return; }
+        };
+        let local = assoc.local_addr().unwrap();
+        for (k, pkt) in packets.iter().enumerate() {
+            a.local.evals += 1;
+            if let Some(s) = &a.slot { s.set(a.local.evals, common::fnv(pkt), pkt.len() as u64, 0); }
+            if k < systematic { a.local.distinct_by_construction += 1; } else { a.local.distinct.push(common::fnv(pkt)); }
+            if relay.send_to(pkt, local).await.is_err() { a.local.tally("socks5 relay datagrams: not sent", 1); continue; }
+            let mut buf = vec![0u8; 1500];
+            let got = std::panic::AssertUnwindSafe(tokio::time::timeout(Duration::from_secs(2), assoc.recv_from(&mut buf))).catch_unwind().await;
+            match got {
+                Err(e) => {
+                    let msg = e.downcast_ref::<&str>().map(|s| s.to_string()).or_else(|| e.downcast_ref::<String>().cloned()).unwrap_or_default();
+                    let loc = common::LAST_PANIC_LOCATION.with(|l| l.borrow_mut().take()).unwrap_or_default();
+                    let file = loc.rsplit_once(':').map(|x| x.0.to_string()).unwrap_or(loc.clone());
+                    a.bad.entry(format!("panic in SOCKS5 relayed datagram reader: {}", file)).or_insert_with(|| json!({"kind":"parser-panic","parser":"UdpAssociation::recv_from","input_hex":common::hex(pkt),"panic":format!("{} @ {}", msg, loc)}));
+                }
+                Ok(Err(_)) => a.local.tally("socks5 relay datagrams: not delivered within 2 s (not judged)", 1),
+                Ok(Ok(Ok((n, _)))) => {
+                    if n > pkt.len() { a.bad.entry("SOCKS5 relayed datagram reader returned more payload than the datagram held".into()).or_insert(json!({"input_hex":common::hex(pkt),"returned":n})); }
+                    a.local.tally("socks5 relay datagrams: parsed", 1);
+                }
+                Ok(Ok(Err(_))) => a.local.tally("socks5 relay datagrams: rejected with an error", 1),
+            }
+        }
+        srv.abort();
+    });
+}
+
 fn settings_files(a: &mut Acc, r: &mut Rng, root: &std::path::Path, n_mut: u64) {
     let dir = env::work_dir(root, "c09");
     let cred = dir.join("cred.toml");
@@ -530,13 +616,14 @@ pub fn sweep(args: &Args, scale: u64) -> Vec<Acc> {
         { let root = root.clone(); Box::new(move |a, r| settings_files(a, r, &root, 3_000 * scale)) },
         Box::new(move |a, r| origin_responses(a, r, 6_000 * scale)),
         { let root = root.clone(); Box::new(move |a, r| h1_listen_loop(a, r, &root, 4_000 * scale)) },
+        Box::new(move |a, r| socks5_relay_datagrams(a, r, 3_000 * scale)),
     ];
     let parts = Arc::new(parts);
     let n = parts.len();
     let inner = args.has_flag("--inner");
     // a parser that burns 20 CPU-seconds on one (tiny) input is wedged
     let watch = crate::common::wedge::Watch::start(n, 20, move |part, case_no, input_hash, input_len, _d, cpu| {
-        let names = ["ip headers", "icmp messages", "stream decoders", "http1 heads", "client hello", "socks5 replies", "settings files", "origin responses", "h1 listen loop"];
+        let names = ["ip headers", "icmp messages", "stream decoders", "http1 heads", "client hello", "socks5 replies", "settings files", "origin responses", "h1 listen loop", "socks5 relay datagrams"];
         let sig = format!("parser wedged (no return within 20 CPU-seconds on one input): {}", names.get(part).copied().unwrap_or("?"));
         let detail = json!({"kind":"parser-wedge","part":names.get(part),"case_number_in_part":case_no,"input_fnv":format!("{:016x}", input_hash),"input_len":input_len,"cpu_seconds":cpu});
         if inner {
@@ -580,13 +667,13 @@ pub fn run(args: &Args) -> i32 {
          with hostile lengths, truncated everywhere), ICMP/ICMPv6 deserialisation + reply encoding (every type byte x codes x lengths; errors quoting a packet behind every IPv4 option length / IPv6 extension header with 0-12 bytes of quoted message left), UDP/ICMP stream \
          decoders under random segmentation, HTTP/1.1 request/response head parsers (all strings of length 4-5 over a 14-symbol alphabet after three prefixes, \
          truncations and mutations of valid heads), ClientHello extractor (all strings of length 6-7 over 7 symbols, every length field of a real hello set to \
-         0/1/max/+-1), SOCKS5 reply readers (all server byte strings of length 4-5 over 8 symbols), settings/credentials/rules/hosts files (products and \
+         0/1/max/+-1), SOCKS5 reply readers (all server byte strings of length 4-5 over 8 symbols), SOCKS5 relayed datagrams to a live UDP association (6 address types x every length 0-44, reserved/fragment variants, seeded random), settings/credentials/rules/hosts files (products and \
          line mutations), origin-response translator and the HTTP/1.1 listen loop on mutated inputs; run in the release-equivalent profile and again in the \
          checked profile (overflow checks + debug assertions). distinct_nontrivial = distinct inputs (enumerations never repeat one).",
     ));
     rep.assume("panic = refuted; arithmetic overflow and failed debug assertions become panics in the checked profile; wedging is caught by the iteration/termination guards inside each case");
     let accs = sweep(args, if args.thorough() { 6 } else { 1 });
-    let names = ["ip headers", "icmp messages", "stream decoders", "http1 heads", "client hello", "socks5 replies", "settings files", "origin responses", "h1 listen loop"];
+    let names = ["ip headers", "icmp messages", "stream decoders", "http1 heads", "client hello", "socks5 replies", "settings files", "origin responses", "h1 listen loop", "socks5 relay datagrams"];
     for (i, a) in accs.into_iter().enumerate() {
         rep.tally(&format!("release profile: inputs to {}", names[i]), a.local.evals);
         for (s, d) in a.bad { rep.violation(&s, d); }
